@@ -87,6 +87,21 @@ pub fn c01(g: &mut Gen) {
             g.group(lines);
         }
     }
+    // conversion from sources whose item count differs from their number of distinct positions (multisets): the
+    // plain bitvector must count the BITS it holds
+    for (n, vals) in [(140u64, vec![3u64, 4, 4, 7, 11, 11, 11, 19, 64, 64, 130]), (5, vec![0, 0, 4, 4, 4]), (70, vec![69, 69]), (200, (0..150).map(|i| (i / 3) * 4).collect::<Vec<u64>>())] {
+        let vs: Vec<String> = vals.iter().map(|x| x.to_string()).collect();
+        let mut distinct = vals.clone(); distinct.dedup();
+        let bits: Vec<bool> = (0..n).map(|i| distinct.contains(&i)).collect();
+        let mut lines = vec![format!("sp M build {} 1 {}", n, vs.join(" "))];
+        lines.push("bv A copy_of M".to_string()); lines.push("bv A enable rsz".to_string());
+        bv_queries(g, "A", &bits, 6, &mut lines);
+        lines.push("bv B from M".to_string()); lines.push("bv B enable rsz".to_string());
+        lines.push(format!("bv R from_bits {}", bitstring(&bits))); lines.push("bv R enable rsz".to_string());
+        lines.push("bv B eq R".to_string()); lines.push("bv A eq R".to_string()); lines.push("bv B ser".to_string()); lines.push("bv R ser".to_string());
+        lines.push("bv B it one : n n l b".to_string()); lines.push("bv B it zero : n b l".to_string());
+        g.group(lines);
+    }
     // exhaustive: every bit sequence up to length L, every argument 0..len+2, three construction routes
     let maxlen = if g.thorough { 11 } else { 8 };
     for len in 0..=maxlen {
